@@ -10,6 +10,7 @@ for f in $(git diff --name-only --diff-filter=U | grep '^lean/OidcModel/Generate
 if git diff --name-only --diff-filter=U | grep -q '^MANIFEST.json$'; then
   git checkout --ours MANIFEST.json; tools/manifest_take.py $ws/MANIFEST.json $ID; git add MANIFEST.json
 fi
+for f in lean/OidcModel/GoTac.lean tools/DEEP_BRIEF.md; do if git diff --name-only --diff-filter=U | grep -qx "$f"; then git checkout --ours $f; git add $f; fi; done
 for f in lean/Driver/Main.lean lean/Driver/MainMon.lean lean/OidcModel.lean known-findings.jsonl lean/lakefile.toml; do
   if git diff --name-only --diff-filter=U | grep -qx "$f"; then tools/union_resolve.py $f; git add $f; fi
 done
